@@ -60,7 +60,9 @@ class RoundTripLeg(object):
             st.sampled_from(["ID", "Name", "Parent", "gene_id", "note", "product", "description", "Note", "Dbxref", "Ontology_term", "Alias"]),
             st.from_regex(r"[A-Za-z_][A-Za-z0-9_.\-]{0,6}", fullmatch=True),
         )
-        structural = list("\t\n\r%;=&,\" ab1") + ["\x00", "\x1f", "\x7f", "\x85", " ", "é", "%3B", "%25", "\\t"]
+        structural = list("\t\n\r%;=&,\" ab1") + ["\x00", "\x1f", "\x7f", "\x85", " ", "é", "%3B", "%25", "\\t",
+                                                  # line-separator look-alikes and code points above U+00FF (an escape of more than two hex digits would not decode)
+                                                  "\u2028", "\u2029", "\x0b", "\x0c", "\x1c", "\u0100", "中", "\U0001f600"]
         v_any = st.one_of(
             st.text(alphabet=st.characters(blacklist_categories=("Cs",)), min_size=1, max_size=8),
             st.lists(st.sampled_from(structural), min_size=1, max_size=6).map("".join),
